@@ -98,6 +98,8 @@ def scan(text):
             counted.add(n)
         if stmt_last is not None:
             cont = stmt_last == "&"
+        if in_char and not cont:
+            in_char = None  # without a continuation a literal cannot run past the end of its line (free text in a skipped group)
         # comment-only line inside a continued statement leaves `cont` unchanged
     return counted, directives
 
@@ -170,8 +172,14 @@ def case_strategy():
     def block(draw, depth, counter):
         out = []
         for _ in range(draw(st.integers(1, 4))):
-            k = draw(st.sampled_from(["stmt", "stmt", "stmt", "comment", "blank", "sentinel", "cond" if depth > 0 else "stmt", "define", "condstmt", "condlit"]))
-            if k == "condlit":
+            k = draw(st.sampled_from(["stmt", "stmt", "stmt", "comment", "blank", "sentinel", "cond" if depth > 0 else "stmt", "define", "condstmt", "condlit", "prose"]))
+            if k == "prose":
+                # free text in a group that is always skipped; an apostrophe there is not a Fortran literal
+                out.append(("#if 0", "directive"))
+                out.append((draw(st.sampled_from(["this doesn't work yet", "TODO: it's broken \"here\"", "don't"])), "code"))
+                out.append(("#endif", "directive"))
+                out.append((draw(st.sampled_from(COMMENTS)), "comment"))
+            elif k == "condlit":
                 # a character literal continued across a conditional, one continuation line per branch
                 counter[0] += 1
                 n = draw(st.sampled_from(["A", "B", "C"]))
@@ -243,7 +251,9 @@ def case_strategy():
         # the included text may sit two include levels deep in a directory outside the code base, behind
         # a header whose extension says "C": the language of the including Fortran file is inherited
         nest = inc_body is not None and draw(st.integers(0, 2)) == 0
-        return {"body": body, "inc": inc_body, "ext": ext, "defines": defines, "nest": nest}
+        # an argument-list fragment included in the middle of a continued statement (it ends with `&` itself)
+        frag = draw(st.integers(0, 4)) == 0
+        return {"body": body, "inc": inc_body, "ext": ext, "defines": defines, "nest": nest, "frag": frag}
 
     return case()
 
@@ -263,6 +273,8 @@ def render(case):
             return not prev or not re.sub(r"!.*$", "", prev[-1]).rstrip().endswith("&") and not re.search(r"&\s*$", prev[-1])
         pos = next((k for k in (2, 1, 0, len(body)) if k <= len(body) and complete(k)), 0)
         body = body[:pos] + [('#include "mid.h"' if case.get("nest") else '#include "part.inc"', "directive")] + body[pos:]
+    if case.get("frag"):
+        body = body + [("call f_frag(x, &", "code"), ('#include "frag.fi"', "directive"), ("     y)", "code")]
     lines += body + [(t, "code") for t in TAIL]
     main = "\n".join(t for t, _ in lines) + "\n"
     inc = None
@@ -306,6 +318,17 @@ def check_case(case, res: Result):
         if nest:
             with open(os.path.join(incdir, "mid.h"), "w") as f:
                 f.write('#include "inner.h"\n')
+        if case.get("frag"):
+            with open(os.path.join(incdir, "frag.fi"), "w") as f:
+                f.write("     1, 2, &\n")
+            try:
+                ftree = file_parser.FileParser(os.path.join(incdir, "frag.fi")).parse_file(language="fortran-free")
+                fgot = {ln for node in ftree.walk() if isinstance(node, CodeNode) for ln in node.lines}
+            except Exception as e:
+                return [make_violation(f"fragment:exception:{type(e).__name__}", cj, "a fragment that ends inside a statement is parsed", f"{type(e).__name__}: {e}")]
+            if fgot != {1}:
+                return [make_violation("fragment:counted-lines", cj, [1], sorted(fgot))]
+            res.labels["fragment-included-inside-a-statement"] += 1
         # domain: gfortran accepts every define set silently (syntax of all branches differs per set)
         ok, why = gfortran_ok(d, name, incdir)
         if not ok:
